@@ -9,6 +9,7 @@ import (
 	"strconv"
 	"strings"
 	"testing"
+	"time"
 
 	"github.com/vimeo/dials"
 	"github.com/vimeo/dials/common"
@@ -40,6 +41,47 @@ var c13Leaves = []string{
 	"Level", "Count", "Ratio", "Flag", "Name", "Timeout", "Names", "Nums", "Limits", "Labels",
 }
 
+// Element structs of list-valued fields.  Every tag differs from the Go field
+// name by more than case, so a decoder that does not see the tag inside a list
+// element finds no field for the key.
+type Backend struct {
+	HostName    string `dials:"host_name"`
+	MaxConns    int    `dials:"max-conns"`
+	IsPreferred bool   `dials:"is_preferred"`
+}
+
+// Route has a duration and a format-specific tag inside the element.
+type Route struct {
+	PathPrefix string        `dials:"path-prefix" yaml:"path_prefix_yaml"`
+	RetryAfter time.Duration `dials:"retry_after"`
+}
+
+// Upstream has a nested struct inside the element.
+type Upstream struct {
+	ServiceName string        `dials:"service_name"`
+	DialTimeout time.Duration `dials:"dial-timeout"`
+	Health      struct {
+		CheckPath string `dials:"check_path"`
+		MaxFails  uint8  `dials:"max-fails"`
+	} `dials:"health_check"`
+	WeightPct float64 `dials:"weight_pct" json:"weightPercent"`
+}
+
+// Probe is a one-leaf element.
+type Probe struct {
+	ProbeColor shape.Color `dials:"probe-color"`
+}
+
+func init() {
+	shape.RegisterBase("Backend", reflect.TypeOf(Backend{}))
+	shape.RegisterBase("Route", reflect.TypeOf(Route{}))
+	shape.RegisterBase("Upstream", reflect.TypeOf(Upstream{}))
+	shape.RegisterBase("Probe", reflect.TypeOf(Probe{}))
+}
+
+// Lists of dials-tagged structs.
+var c13StructLists = []string{"[]Backend", "[]Backend", "[]Route", "[]Route", "[]Upstream", "[]Upstream", "[]Probe", "[2]Backend", "[1]Upstream"}
+
 // Slices whose element is a struct that unmarshals itself from text and that
 // all four formats can spell; see the finding keyed slice-of-text-struct.
 // ([]Stamp is not here: go-toml v1 cannot fill a slice of text-unmarshalable
@@ -47,7 +89,7 @@ var c13Leaves = []string{
 var c13TextStructSlices = []string{"[]time.Time", "[]time.Time"}
 
 func c13Profile(withTextStructSlices bool) shape.Profile {
-	leaves := append([]string{}, c13Leaves...)
+	leaves := append(append([]string{}, c13Leaves...), c13StructLists...)
 	if withTextStructSlices {
 		leaves = append(leaves, c13TextStructSlices...)
 	}
@@ -294,11 +336,18 @@ func genData(t *rapid.T, nodes []shape.Node) shape.Data {
 
 // avoidMinInt64 moves a leaf on to the next seed whose value holds no
 // math.MinInt64: Cue v0.6.0 cannot decode that into a 64-bit integer ("value
-// was rounded up").
+// was rounded up").  It also skips empty lists of structs (no TOML spelling).
 func avoidMinInt64(nodes []shape.Node, l shape.Layer) {
 	for _, n := range nodes {
 		if sd := l.Set[n.Path]; n.Class == shape.ClassLeaf && sd != 0 {
-			for hasMinInt64(shape.MakeValue(n.Type, sd, shape.ValueOpts{Plain: true})) {
+			for {
+				v := shape.MakeValue(n.Type, sd, shape.ValueOpts{Plain: true})
+				// go-toml v1 cannot turn the empty array "[]" into a slice of
+				// structs ("Can't convert []([]interface {}) to a slice"), so
+				// an empty list of structs has no TOML spelling
+				if !hasMinInt64(v) && !(isStructList(n.Type) && v.Len() == 0) {
+					break
+				}
 				sd++
 			}
 			l.Set[n.Path] = sd
@@ -310,7 +359,16 @@ func hasMinInt64(v reflect.Value) bool {
 	switch v.Kind() {
 	case reflect.Int, reflect.Int64:
 		return v.Int() == math.MinInt64
-	case reflect.Slice:
+	case reflect.Struct:
+		if v.Type() == timeT || v.Type() == stampT {
+			return false
+		}
+		for i := 0; i < v.NumField(); i++ {
+			if hasMinInt64(v.Field(i)) {
+				return true
+			}
+		}
+	case reflect.Slice, reflect.Array:
 		for i := 0; i < v.Len(); i++ {
 			if hasMinInt64(v.Index(i)) {
 				return true
@@ -355,10 +413,27 @@ func hasType(t reflect.Type, pred func(reflect.Type) bool) bool {
 	switch t.Kind() {
 	case reflect.Slice:
 		return t != ipT && hasType(t.Elem(), pred)
-	case reflect.Map:
+	case reflect.Map, reflect.Array:
 		return hasType(t.Elem(), pred)
+	case reflect.Struct:
+		if t == timeT || t == stampT {
+			return false
+		}
+		for i := 0; i < t.NumField(); i++ {
+			if hasType(t.Field(i).Type, pred) {
+				return true
+			}
+		}
 	}
 	return false
+}
+
+func isStructList(t reflect.Type) bool {
+	if t.Kind() != reflect.Slice && t.Kind() != reflect.Array {
+		return false
+	}
+	e := t.Elem()
+	return e.Kind() == reflect.Struct && e != timeT && e != stampT
 }
 
 func facts(T reflect.Type, nodes []shape.Node, d shape.Data) leafFacts {
@@ -406,6 +481,12 @@ func facts(T reflect.Type, nodes []shape.Node, d shape.Data) leafFacts {
 				f.deepLeaf++
 			}
 			t := n.Type
+			if isStructList(t) {
+				f.labels["leaf:struct-list"] = true
+				if t.Kind() == reflect.Array {
+					f.labels["leaf:struct-array"] = true
+				}
+			}
 			switch {
 			case hasType(t, func(x reflect.Type) bool { return x == durT }):
 				f.labels["leaf:duration"] = true
@@ -431,6 +512,8 @@ func facts(T reflect.Type, nodes []shape.Node, d shape.Data) leafFacts {
 			if t.Kind() == reflect.Slice || t.Kind() == reflect.Map {
 				if v := shape.MakeValue(t, seed, opts); v.Len() == 0 {
 					switch {
+					case isStructList(t):
+						f.labels["empty-struct-list"] = true
 					case isSet(t):
 						f.labels["empty-set"] = true
 					case t.Kind() == reflect.Map:
@@ -540,7 +623,8 @@ var c13Assumptions = []string{
 	"integers stay within the int64 range (TOML cannot spell larger ones) and 64-bit signed values are never math.MinInt64 (Cue v0.6.0 refuses it: \"value was rounded up\"); floats are finite and written in shortest round-trip form, with a fraction or exponent in TOML (go-toml refuses an integer literal for a float field)",
 	"strings, map keys and set elements are plain ASCII words: quoting rules of the third-party parsers are not the subject",
 	"durations are written as time.Duration.String() text, or integer nanoseconds in JSON and Cue only; times are RFC 3339 UTC with second precision (a native date-time in TOML, an unquoted timestamp or a string in YAML)",
-	"no []byte, arrays, user pointer leaves, interfaces, embedded structs or slices of tagged structs; null is not used (TOML has none)",
+	"no []byte, arrays of scalars, user pointer leaves, interfaces or embedded structs; null is not used (TOML has none)",
+	"lists of dials-tagged structs ([]S, [N]S; S has 1-4 tagged leaves, some with a duration, a nested struct or a format-specific tag) always have at least one element: go-toml v1 cannot decode the empty array [] into a slice of structs; inside an element a zero-valued field may be left out of the document (elements are not pointerified, absent = zero); slices of pointers to structs and maps of structs are left out (the transformer does not carry tags into them)",
 	"net.IP values are compared after conversion to the 16-byte form",
 	"sets are written as lists under the set-to-slice wrapper (possibly with a repeated element) and as mappings of empty mappings without it",
 	"config types are built with reflect.StructOf, so decoders are driven through static.StringSource + dials.NewType(Pointerify(T, defaults)) and stacked with the verif-tagged VerifCompose",
